@@ -229,17 +229,17 @@ def run(index: RepoIndex, rep) -> None:
                   init.node.lineno, f'{len(incs)} increments',
                   'the counter is advanced elsewhere than for a map store (gaps)',
                   f'{c.name} increments = stores')
-        loops = [src(w.expand(e.loops[-1][1])) if e.loops else '' for e in stores]
+        loop_exprs = [w.expand(e.loops[-1][1]) if e.loops else None for e in stores]
+        loops = [src(x) if x is not None else '' for x in loop_exprs]
 
-        def loop_kind(t: str) -> str:
-            if t.startswith('_sorted_object_types('):
-                return 'types'
-            if t.startswith('_sorted_colors('):
-                return 'colours'
-            if re.fullmatch(r'range\(\w+\.num_states\(\)\)', t):
+        def loop_kind(x) -> str:
+            k = sort_kind(index, init.module, x)
+            if k:
+                return k
+            if x is not None and re.fullmatch(r'range\(\w+\.num_states\(\)\)', src(x)):
                 return 'states'
             return '?'
-        kinds = [loop_kind(l) for l in loops]
+        kinds = [loop_kind(x) for x in loop_exprs]
         rep.check(sorted(kinds) == ['colours', 'states', 'types'], 'C16.R6', rel,
                   f'{c.name}.__init__',
                   init.node.lineno, '; '.join(loops),
@@ -263,15 +263,60 @@ def run(index: RepoIndex, rep) -> None:
                   'the arrays filled over types / statuses / colours are not installed as the '
                   'type / status / colour maps', f'{c.name} maps installed')
     for rel in (STATE, OBSR):
-        for fn, key in (('_sorted_object_types', 'lambda obj_type: obj_type.type_index()'),
-                        ('_sorted_colors', 'lambda color: color.value')):
-            f = index.func(rel, fn)
-            b = f.body()
+        for fn, kind in (('_sorted_object_types', 'types'), ('_sorted_colors', 'colours')):
+            f = index.module(rel).functions.get(fn)
+            if f is None:
+                continue        # the constructor sorts in place: judged by sort_kind there
             p = f.node.args.args[0].arg
-            rep.check(len(b) == 1 and src(b[0]) == f'return sorted({p}, key={key})', 'C16.R6',
-                      rel, fn, f.node.lineno, src(b[-1]),
+            call = ast.Call(ast.Name(fn, ast.Load()), [ast.Name(p, ast.Load())], [])
+            rep.check(sort_kind(index, f.module, call) == kind, 'C16.R6',
+                      rel, fn, f.node.lineno, src(f.body()[-1]),
                       f'{fn} does not sort by index (the compact numbering would depend on '
                       f'hash order)', f'{fn} sorted by index')
+
+
+def sort_kind(index, module, x) -> str:
+    """'types' / 'colours' when `x` denotes its one argument sorted by type index / by colour
+    value: `sorted(X, key=lambda t: t.type_index())`, `sorted(X, key=lambda c: c.value)`, or a
+    call of a one-return function that is such an expression of its parameter"""
+    if not isinstance(x, ast.Call) or not isinstance(x.func, ast.Name):
+        return ''
+    if x.func.id == 'sorted':
+        if len(x.args) != 1 or len(x.keywords) != 1 or x.keywords[0].arg != 'key':
+            return ''
+        lam = x.keywords[0].value
+        if not isinstance(lam, ast.Lambda) or len(lam.args.args) != 1 or lam.args.defaults:
+            return ''
+        p = lam.args.args[0].arg
+        if src(lam.body) == f'{p}.type_index()':
+            return 'types'
+        if src(lam.body) == f'{p}.value':
+            return 'colours'
+        return ''
+    from ..index import Func
+    f = None
+    mods = [module]
+    # an inlined cross-module helper carries names of its own module
+    h = index.resolve_name(module, 'compact_grid_object_representation_maps')
+    if isinstance(h, Func):
+        mods.append(h.module)
+    for m in mods:
+        f = m.functions.get(x.func.id)
+        if f is None:
+            r = index.resolve_name(m, x.func.id)
+            f = r if isinstance(r, Func) and r.cls is None else None
+        if f is not None:
+            break
+    if f is None or len(x.args) != 1 or x.keywords or len(f.node.args.args) != 1:
+        return ''
+    b = f.body()
+    if len(b) != 1 or not isinstance(b[0], ast.Return) or b[0].value is None:
+        return ''
+    inner = b[0].value
+    if isinstance(inner, ast.Call) and len(inner.args) == 1 and \
+            src(inner.args[0]) == f.node.args.args[0].arg:
+        return sort_kind(index, f.module, inner)
+    return ''
 
 
 def enumerate_style(index, rep, c, init, node, w, rel) -> bool:
@@ -320,14 +365,16 @@ def enumerate_style(index, rep, c, init, node, w, rel) -> bool:
     def list_kind(lst: ast.AST) -> str:
         v = w.expand(lst)
         if isinstance(v, ast.ListComp):
-            its = [src(w.expand(g.iter)) for g in v.generators]
-            if len(its) == 1 and its[0].startswith('_sorted_object_types(') and \
+            itx = [w.expand(g.iter) for g in v.generators]
+            its = [src(i) for i in itx]
+            sk = sort_kind(index, init.module, itx[0])
+            if len(its) == 1 and sk == 'types' and \
                     src(v.elt).endswith('.type_index()'):
                 return 'types'
-            if len(its) == 1 and its[0].startswith('_sorted_colors(') and \
+            if len(its) == 1 and sk == 'colours' and \
                     src(v.elt).endswith('.value'):
                 return 'colours'
-            if len(its) == 2 and its[0].startswith('_sorted_object_types(') and \
+            if len(its) == 2 and sk == 'types' and \
                     re.fullmatch(r'range\(\w+\.num_states\(\)\)', its[1]) and \
                     isinstance(v.elt, ast.Tuple) and len(v.elt.elts) == 2 and \
                     src(v.elt.elts[0]).endswith('.type_index()') and \
